@@ -79,6 +79,9 @@ func (e *Exec) bytesEq(a, b []*Term) *Term {
 
 func (e *Exec) strEq(a, b *StringV) *Term {
 	c := e.ctx
+	if a.Opq != nil || b.Opq != nil {
+		return e.opaqueEq(a, b)
+	}
 	if a.Tok != nil || b.Tok != nil {
 		if a.Tok != nil && b.Tok != nil {
 			return c.Eq(a.Tok, b.Tok)
@@ -136,6 +139,9 @@ func (e *Exec) strLess(a, b *StringV, orEq bool) *Term {
 }
 
 func (e *Exec) strConcat(a, b *StringV) *StringV {
+	if a.Opq != nil || b.Opq != nil {
+		return e.concatOpaque([]interface{}{a, b})
+	}
 	if a.Tok != nil || b.Tok != nil {
 		panic(unsupported{"concatenation of opaque strings"})
 	}
@@ -205,4 +211,89 @@ func (e *Exec) fmtArgT(v Value, iv *IfaceV) (interface{}, bool) {
 		return fmt.Errorf("%s", x.Tag), true
 	}
 	return nil, false
+}
+
+func (e *Exec) mkOpaque(kind string, parts ...interface{}) *StringV {
+	return &StringV{Tok: e.ctx.Int(0), Opq: &Opaque{Kind: kind, Parts: parts}, Off: e.ctx.Int(0), Len: e.ctx.Int(0)}
+}
+
+// opaqueEq: structural equality of opaque strings; an opaque number/bool
+// against a literal is decided by parsing the literal.
+func (e *Exec) opaqueEq(a, b *StringV) *Term {
+	c := e.ctx
+	if a.Opq == nil {
+		a, b = b, a
+	}
+	if b.Opq == nil {
+		lit, ok := e.concreteString(b)
+		if !ok {
+			panic(unsupported{"comparison of an opaque string with a symbolic one"})
+		}
+		switch a.Opq.Kind {
+		case "bool":
+			t := a.Opq.Parts[0].(*Term)
+			if lit == "true" {
+				return t
+			}
+			if lit == "false" {
+				return c.Not(t)
+			}
+			return c.False
+		case "dec-s", "dec-u":
+			x := a.Opq.Parts[0].(*Term)
+			var v uint64
+			neg := false
+			digits := lit
+			if len(digits) > 0 && digits[0] == '-' {
+				neg = true
+				digits = digits[1:]
+			}
+			if len(digits) == 0 || len(digits) > 19 || (len(digits) > 1 && digits[0] == '0') {
+				return c.False
+			}
+			for i := 0; i < len(digits); i++ {
+				if digits[i] < '0' || digits[i] > '9' {
+					return c.False
+				}
+				v = v*10 + uint64(digits[i]-'0')
+			}
+			if neg {
+				if a.Opq.Kind == "dec-u" || v == 0 {
+					return c.False
+				}
+				v = -v
+			}
+			return c.Eq(x, c.BV(v, x.W))
+		}
+		return c.False
+	}
+	ka, kb := a.Opq.Kind, b.Opq.Kind
+	if ka != kb {
+		if (ka == "dec-s" && kb == "dec-u") || (ka == "dec-u" && kb == "dec-s") {
+			x, y := a.Opq.Parts[0].(*Term), b.Opq.Parts[0].(*Term)
+			return c.And(c.Eq(x, y), c.Sle(c.BV(0, x.W), x))
+		}
+		return c.False
+	}
+	if len(a.Opq.Parts) != len(b.Opq.Parts) {
+		return c.False
+	}
+	acc := c.True
+	for i := range a.Opq.Parts {
+		switch x := a.Opq.Parts[i].(type) {
+		case *Term:
+			y, ok := b.Opq.Parts[i].(*Term)
+			if !ok || y.W != x.W {
+				return c.False
+			}
+			acc = c.And(acc, c.Eq(x, y))
+		case *StringV:
+			y, ok := b.Opq.Parts[i].(*StringV)
+			if !ok {
+				return c.False
+			}
+			acc = c.And(acc, e.strEq(x, y))
+		}
+	}
+	return acc
 }
